@@ -101,8 +101,9 @@ def run(tier, seed, replay_path=None):
                # lock-step rounds: a rendezvous before every parse, every parse a short text that fails somewhere new
                ("lock-step", start + 1100000, max(2, nseeds // 2), 0, ["lockstep"]),
                # tracing rounds: a traced parse a few hundred rule calls deep next to threads that begin and end short traces
-               # (every traced line costs Miri tens of milliseconds: 45..60 rule calls deep in the quick tier, 262..277 in 16 seeds of the thorough tier)
-               ("tracing", start + 1300000, 4 if tier == "quick" else 16, 0, ["trace", "45" if tier == "quick" else "262"])]
+               # (every traced line costs Miri tens of milliseconds and megabytes: 45..60 rule calls deep in the quick tier,
+               # 262..277 in 4 seeds of the thorough tier, about 2.5 GB each; Miri runs the seeds of one batch inside one process)
+               ("tracing", start + 1300000, 4, 0, ["trace", "45" if tier == "quick" else "262"])]
     info = {"batches": [], "threads": 3, "preemption_rate": 0.1, "clean_runs": 0, "seeds": sum(b[2] for b in batches), "wall_s": None, "violation": None}
     rc = 0
     for bname, bstart, bn, bjobs, extra in batches:
